@@ -22,6 +22,9 @@ Print Assumptions C20_delta.
 Theorem C20_aggregate : C20_aggregate_statement.
 Proof. exact C20Facts.C20_aggregate. Qed.
 Print Assumptions C20_aggregate.
+Theorem C20_aggregate_mixed : C20_aggregate_mixed_statement.
+Proof. exact C20Facts.C20_aggregate_mixed. Qed.
+Print Assumptions C20_aggregate_mixed.
 Theorem C20_chain : C20_chain_statement.
 Proof. exact C20Facts.C20_chain. Qed.
 Print Assumptions C20_chain.
